@@ -427,9 +427,11 @@ def run_lp(sc, prefer=None, xcheck=None, wall_cap=None, keep_sets=True):
             with open(path, 'w') as f:
                 f.write(text)
         world.spy_start(d, _spy_sink(tr, log))
+        # every run works from inside its own directory, so that nothing the
+        # repository writes with a relative name lands elsewhere
+        old_cwd = os.getcwd()
+        os.chdir(d)
         if sc.get('relpath'):
-            old_cwd = os.getcwd()
-            os.chdir(d)
             path = fname
         with _Alarm(wall_cap, tr):
             try:
